@@ -123,7 +123,9 @@ ReadFreeNow(h) == /\ last'.t = "deliver" /\ last'.c.kind = "listds" /\ last'.c.h
 C12first == \A i \in AnsNow :
               htlc'[i].fb /\ cfg.mpp > 0 /\ (obs[KeyOf(i)].readAt # -1 \/ ReadFreeNow(KeyOf(i))) /\ ~obs[KeyOf(i)].paid
                 => Resp(i).r = "fail" /\ Resp(i).code = "fee"
-C12 == C12first
+\* ... and is certainly not paid for: no pay request while the HTLC that opened the set and failed the test is held
+C12pay == \A c \in PayIss : \A i \in HeldIn(htlc', c.hash) : ~htlc'[i].fb
+C12 == C12first /\ C12pay
 
 (* C15  wait_payment: a preimage only from a completed part; 'none' only   *)
 (*      if nothing is pending or complete at that moment                   *)
